@@ -482,6 +482,13 @@ def rule_subsumption_sequence(rep, sh):
             sig = [_sig(x) for x in flatten(q.ret)]
             ok = sig == [('clause', ('SubsumeDeleteCurrentCurrent',)), ('erase', 'Main', 'Delete'), ('Clear', 'Delete')]
             rep.ob('R2-nonrecursive-delete', 'generateNonRecursiveDelete', ok, g.where, '' if ok else 'sequence is %s' % sig)
+        # every way a relation gets tuples before/without rules (facts, .input, rules of any kind) ends in this delete pass: it may be
+        # skipped only for relations without a subsumptive clause
+        emptyp = [q for q in ps if q.ret is not None and not any(_sig(x)[0] == 'erase' for x in flatten(q.ret))]
+        badp = [q for q in emptyp if not guard_has(q, 'hasSubsumptiveClause', positive=False)]
+        rep.ob('R2-nonrecursive-delete-skipped-only-without-subsumptive-clauses', 'generateNonRecursiveDelete', not badp and bool(fullp), g.where,
+               '' if not badp and fullp else 'a path returns without the erase step (Main -= Delete) although the relation has subsumptive clauses (guards: %s): dominated tuples that were '
+               'loaded by .input or given as facts stay in the relation' % [show(x) for x in (badp[0].guards if badp else [])][:4])
     # merge-with-filter / erase shapes
     g, ps = sh.paths('UnitTranslator', 'generateMergeRelationsWithFilter')
     if g is not None:
